@@ -26,30 +26,5 @@ Definition k_ether_payload : finding :=
     (fun name v => is name "Payload" && Nat.eqb (len v) (eth_hlen v) && Nat.ltb (len v) (cap v)).
 Definition Ether_findings : list finding := [k_ether_payload].
 
-(* ---- HopByHopExtensionHeader.ParseHopByHopExtensions (layer_ip6.go:114; the walk is HANDLERS' to repair) ----
-   The code dispatches on type & 0x1f and treats every type with low bits 5 as a 4-byte router alert, and it
-   stops as soon as pos >= len(data), so an option running past the area is accepted.  Walk over the options
-   area d = p[2:Len] as the code does it: 0 = conformant, 1 = a type is misread because of the mask,
-   2 = an option overruns the area. *)
-Fixpoint hbh_dev (fuel : nat) (v : slice) (dlen pos : nat) : N :=
-  match fuel with
-  | O => 0
-  | S f =>
-      if Nat.leb dlen pos then 0 else
-      let b0 := bt v (2 + pos) in
-      if N.land b0 31 =? 0 then (if b0 =? 0 then hbh_dev f v dlen (S pos) else 1)
-      else if N.land b0 31 =? 5 then
-        (if (b0 =? 5) && (bt v (2 + pos + 1) =? 2) && Nat.leb (pos + 4) dlen then hbh_dev f v dlen (pos + 4)
-         else if (b0 =? 5) && (bt v (2 + pos + 1) =? 2) then 0 else if Nat.ltb (dlen - pos) 2 then 0 else 1)
-      else if Nat.ltb (dlen - pos) 2 then 0
-      else let pos' := (pos + 2 + N.to_nat (bt v (2 + pos + 1)))%nat in
-           if Nat.ltb dlen pos' then 2 else hbh_dev f v dlen pos'
-  end.
-Definition hbh_dlen (v : slice) : nat := (N.to_nat (bt v 1) * 8 + 6)%nat.
-Definition k_hbh_mask : finding :=
-  mkFinding "view-hbh-option-type-masked"
-    (fun name v => is name "ParseHopByHopExtensions" && (hbh_dev (S (hbh_dlen v)) v (hbh_dlen v) 0 =? 1)).
-Definition k_hbh_overrun : finding :=
-  mkFinding "view-hbh-option-overrun-accepted"
-    (fun name v => is name "ParseHopByHopExtensions" && (hbh_dev (S (hbh_dlen v)) v (hbh_dlen v) 0 =? 2)).
-Definition HBH_findings_C02 : list finding := [k_hbh_mask; k_hbh_overrun].
+(* The two classes of HopByHopExtensionHeader.ParseHopByHopExtensions (type masked with 0x1f; overrunning option
+   accepted) were repaired in /repo by HANDLERS (ddd494c, 3430bd4). *)
